@@ -289,7 +289,9 @@ def check_programs(ctx, n, keyword_names):
             meta.append(inp)
             # workspace symbols on this document's names
             impl.did_close(srv, path); impl.did_close(srv_mem, path)
-        ws_check(ctx, srv, conn, coq)
+            if k in (40, 110):
+                ws_check(ctx, srv, conn, coq, model=True)      # model comparison while the literal stays small
+        ws_check(ctx, srv, conn, coq, model=False)
     finally:
         shutil.rmtree(root, ignore_errors=True)
     bad = coq.bools(exprs, shard=40)
@@ -300,7 +302,7 @@ def check_programs(ctx, n, keyword_names):
                    found_input=False)
 
 
-def ws_check(ctx, srv, conn, coq):
+def ws_check(ctx, srv, conn, coq, model):
     """workspace/symbol on the documents opened so far: equals the stable sort by name of the
     case-insensitive substring filter over top-level units and module members"""
     resp_all, _ = impl.request(srv, conn, "workspace/symbol", {"query": ""})
@@ -317,7 +319,10 @@ def ws_check(ctx, srv, conn, coq):
         if got is None or sorted(got) != sorted(want) or [g[0] for g in got] != sorted(g[0] for g in got):
             ctx.report("C04:workspace-symbol", "workspace/symbol is not the name-sorted filter of the indexed units and module members",
                        {"kind": "counterexample", "input": {"query": q, "universe": universe[:60]}, "implementation": got, "oracle": want})
-    # the sort/filter model on the same data
+    # the sort/filter model on the same data (a universe of thousands of names makes the Coq literal
+    # cost gigabytes: the model is evaluated on the early, smaller universes; the oracle above on all)
+    if not model and len(universe) > 600:
+        return
     exprs = []
     for q in queries[:8]:
         resp, _ = impl.request(srv, conn, "workspace/symbol", {"query": q})
